@@ -9,7 +9,7 @@ THEOREMS = ['C19_shape', 'C19_shape_error_type', 'C19_shape_dict', 'C19_group', 
 RULE = ("(a) EXHAUSTIVE grid through check_kwargs_shape: array shapes 2-D (n0 in 1..3) and 3-D (n0, n1 in 1..3) x axis in {None, 0, 1, 2, (0,1)} x option-list shapes "
         "{None, dict, 1-D len 1..4, 2-D (a,b) a,b in 1..3, 3-D}: implementation vs the TRANSLATED chain (model) vs the documented table (Lean spec); "
         "(b) a sample of the same grid end to end through compute_features_2d / compute_features_3d on real signals (accept = returns, reject = ValueError); "
-        "(c) every documented parameter at, just inside and just outside its valid range, unknown enumerated options, wrong dimensionality, plot before fit: exception type; "
+        "(c) every documented parameter at, just inside and just outside its valid range, unknown enumerated options, wrong dimensionality (also singleton axes), ragged option lists, plot before fit: exception type; "
         "distinct = distinct configurations; non-trivial = an ndarray option list or an out-of-range / boundary value")
 ASSUMPTIONS = ["fs = 0 passes bycycle's inclusive range check and is rejected by the neurodsp filter design (kernel, not verified); the run observes the ValueError on the implementation"]
 BATCH = 5000
@@ -111,6 +111,19 @@ def _param_table():
     add('Bycycle.fit 1-D', lambda: Bycycle(thresholds={}).fit(sig, fs, fr), 'ok')
     add('Bycycle.fit 2-D', lambda: Bycycle(thresholds={}).fit(s2, fs, fr), 'ValueError')
     add('Bycycle.fit 0-D', lambda: Bycycle(thresholds={}).fit(np.array(1.0), fs, fr), 'ValueError')
+    # a 2-D / 3-D array holding ONE recording (singleton axes) is still of the wrong dimensionality for Bycycle, and a 1-D one still for BycycleGroup
+    for nm, arr in (('(1, n)', sig[None, :]), ('(n, 1)', sig[:, None]), ('(1, 1, n)', sig[None, None, :])):
+        add('Bycycle.fit %s' % nm, lambda a=arr: Bycycle(thresholds={}).fit(a, fs, fr), 'ValueError')
+    add('BycycleGroup.fit (1, n)', lambda: BycycleGroup(thresholds={}).fit(sig[None, :], fs, fr, n_jobs=1), 'ok')
+    add('BycycleGroup.fit (1, 1, n)', lambda: BycycleGroup(thresholds={}).fit(sig[None, None, :], fs, fr, n_jobs=1), 'ok')
+    add('BycycleGroup.fit (1, 1, 1, n)', lambda: BycycleGroup(thresholds={}).fit(sig[None, None, None, :], fs, fr, n_jobs=1), 'ValueError')
+    # RAGGED per-signal option lists (rows of unequal length, a dict next to a list of dicts) never match an array, whatever the outer length
+    d_ = {'threshold_kwargs': {}}
+    s22 = np.array([[sig, sig * 1.1], [sig * 1.2, sig * 1.3]])
+    for nm, kw in (('[[d, d], d]', [[d_, d_], d_]), ('[[d, d], [d]]', [[d_, d_], [d_]]), ('[d, [d, d]]', [d_, [d_, d_]])):
+        for ax in (0, 1, (0, 1)):
+            add('3d ragged options %s axis=%r' % (nm, ax), lambda kw=kw, ax=ax: compute_features_3d(s22, fs, fr, kw, axis=ax, n_jobs=1), 'ValueError')
+        add('2d ragged options %s' % nm, lambda kw=kw: compute_features_2d(s2, fs, fr, kw, axis=0, n_jobs=1), 'ValueError')
     add('BycycleGroup.fit 2-D', lambda: BycycleGroup(thresholds={}).fit(s2, fs, fr, n_jobs=1), 'ok')
     add('BycycleGroup.fit 3-D', lambda: BycycleGroup(thresholds={}).fit(s3, fs, fr, n_jobs=1), 'ok')
     add('BycycleGroup.fit 1-D', lambda: BycycleGroup(thresholds={}).fit(sig, fs, fr, n_jobs=1), 'ValueError')
